@@ -198,8 +198,9 @@ theorem C09_ready_current (env : Env) (s : St) (h : Inv s) (hr : isReady env s =
     sizes, the piece length, nor any of the four filter lists.  Contrapositive: whenever the set
     of files, their sizes, the filters or the piece length change, previously computed hashes are
     discarded.  The operations include every edit of a filter list — slice and index assignment
-    (so `torrent.exclude_globs = […]`), `append`, `extend`, `+=` on the list and on the
-    attribute, `del`, `clear`, re-assigning the value the list already has — on all four lists,
+    (so `torrent.exclude_globs = […]`), `append`, `insert`, `extend`, `+=` on the list and on the
+    attribute, `del` (item and slice), `pop`, `remove`, `clear`, `reverse`, re-assigning the value
+    the list already has — on all four lists,
     with any items, duplicates included (no exclusion for D09d any more: fix e62ce6d). -/
 theorem C09_pieces_survive_only_unchanged (env : Env) (s : St) (op : Op) (h : Inv s)
     (hex : PathEx env s) (hop : op ≠ .generate) (g : Ghost)
@@ -388,6 +389,100 @@ theorem C09_filter_iadd_attr (env : Env) (s : St) (h : FiltersOk s) (inc : Bool)
       simp only [applyL] at hok ⊢
       rw [if_neg hok]
 
+/-- **`lst.reverse()`** (fix 3d3793a: one slice assignment `self[:] = self._items[::-1]`; the
+    inherited `MutableSequence.reverse()` swapped items by pairs of index assignments, whose first
+    half creates a duplicate that is dropped, so a pattern was lost and `IndexError` raised).  In
+    a state with well-formed filter lists the operation is exactly one run of the callback on the
+    state whose list is the reversed list: the list afterwards is **exactly** the reversed list
+    (nothing dropped, nothing stored twice), the callback does not touch it, and — in a state
+    satisfying the invariant whose content path exists — the piece hashes are discarded. -/
+theorem C09_filter_reverse (env : Env) (s : St) (h : FiltersOk s) (inc : Bool) :
+    apply env s (.glob inc .reverse) = filtersChanged env (putGlobs s inc (getGlobs s inc).reverse) ∧
+    getGlobs (apply env s (.glob inc .reverse)).1 inc = (getGlobs s inc).reverse ∧
+    apply env s (.rx inc .reverse) = filtersChanged env (putRxs s inc (getRxs s inc).reverse) ∧
+    getRxs (apply env s (.rx inc .reverse)).1 inc = (getRxs s inc).reverse ∧
+    (Inv s → PathEx env s →
+      (apply env s (.glob inc .reverse)).1.pieces = none ∧
+      (apply env s (.rx inc .reverse)).1.pieces = none) := by
+  rw [filtersOk_iff] at h
+  have eg : apply env s (.glob inc .reverse) =
+      filtersChanged env (putGlobs s inc (getGlobs s inc).reverse) := by
+    simp only [apply, applyL, setSliceL]
+    simp [spliced_all, readd_eq_dedupFirst, dedupFirst_of_nodup _ (nodup_reverse (h.1 inc).1)]
+  have er : apply env s (.rx inc .reverse) =
+      filtersChanged env (putRxs s inc (getRxs s inc).reverse) := by
+    have hv : (getRxs s inc).reverse.all Rx.valid = true := by rw [List.all_reverse]; exact (h.2 inc).2
+    simp only [apply, applyL, setSliceL, hv]
+    simp [spliced_all, readd_eq_dedupFirst, dedupFirst_of_nodup _ (nodup_reverse (h.2 inc).1)]
+  refine ⟨eg, ?_, er, ?_, fun hi hex => ⟨?_, ?_⟩⟩
+  · rw [eg]; exact get_changed env _ _ (globs_lens inc) s _
+  · rw [er]; exact get_changed env _ _ (rxs_lens inc) s _
+  · rw [eg]; exact put_none env _ (putGlobs_ok env inc) hi hex _
+  · rw [er]; exact put_none env _ (putRxs_ok env inc) hi hex _
+
+/-- **The other in-place edits**, each through the primitives of `MonitoredList`
+    (`insert`, `__delitem__`, the callback).  `insert(i, v)`: a rejected item raises `re.error` and
+    changes nothing; a present item only runs the callback; a new item goes to Python's clamped
+    position.  `pop(i)` / `del lst[i]`: `IndexError` and nothing changed for an index out of range,
+    else the item is erased.  `remove(v)`: `ValueError` and nothing changed if `v` is not in the
+    list, else its (only) occurrence is erased.  `del lst[a:b]`: the slice is cut out.  Every
+    accepted one is one run of the callback (so the hashes go: `C09_filter_edit_discards`). -/
+theorem C09_filter_inplace_edits (env : Env) (s : St) (inc : Bool) :
+    (∀ i v, Rx.valid v = false → apply env s (.rx inc (.insert i v)) = (s, .err .regex)) ∧
+    (∀ i v, Rx.valid v = true → v ∈ getRxs s inc →
+      apply env s (.rx inc (.insert i v)) = filtersChanged env s) ∧
+    (∀ i v, Rx.valid v = true → v ∉ getRxs s inc →
+      apply env s (.rx inc (.insert i v)) = filtersChanged env (putRxs s inc
+        ((getRxs s inc).take (ML.insertPos (getRxs s inc).length i) ++
+          v :: (getRxs s inc).drop (ML.insertPos (getRxs s inc).length i)))) ∧
+    (∀ i, ML.pyIndex (getRxs s inc).length i = none →
+      apply env s (.rx inc (.pop i)) = (s, .err .index)) ∧
+    (∀ i j, ML.pyIndex (getRxs s inc).length i = some j →
+      apply env s (.rx inc (.pop i)) = filtersChanged env (putRxs s inc ((getRxs s inc).eraseIdx j))) ∧
+    (∀ v, v ∉ getRxs s inc → apply env s (.rx inc (.remove v)) = (s, .err .value)) ∧
+    (∀ v, v ∈ getRxs s inc →
+      apply env s (.rx inc (.remove v)) = filtersChanged env (putRxs s inc ((getRxs s inc).erase v))) ∧
+    (∀ a b, apply env s (.rx inc (.delSlice a b)) =
+      filtersChanged env (putRxs s inc (ML.cut (getRxs s inc) a b))) := by
+  have hput : putRxs s inc (getRxs s inc) = s := by unfold putRxs getRxs; cases inc <;> rfl
+  refine ⟨fun i v hv => ?_, fun i v hv hm => ?_, fun i v hv hm => ?_, fun i hi => ?_,
+    fun i j hi => ?_, fun v hm => ?_, fun v hm => ?_, fun a b => rfl⟩
+  · simp [apply, applyL, insertL, hv]
+  · simp [apply, applyL, insertL, hv, hm, hput]
+  · simp [apply, applyL, insertL, hv, hm]
+  · simp [apply, applyL, popL, hi]
+  · simp [apply, applyL, popL, hi]
+  · simp [apply, applyL, removeL, hm]
+  · simp [apply, applyL, removeL, hm]
+
+/-- … and the same on the glob lists, which accept every item (`type=str`). -/
+theorem C09_filter_inplace_edits_globs (env : Env) (s : St) (inc : Bool) :
+    (∀ i v, v ∈ getGlobs s inc → apply env s (.glob inc (.insert i v)) = filtersChanged env s) ∧
+    (∀ i v, v ∉ getGlobs s inc →
+      apply env s (.glob inc (.insert i v)) = filtersChanged env (putGlobs s inc
+        ((getGlobs s inc).take (ML.insertPos (getGlobs s inc).length i) ++
+          v :: (getGlobs s inc).drop (ML.insertPos (getGlobs s inc).length i)))) ∧
+    (∀ i, ML.pyIndex (getGlobs s inc).length i = none →
+      apply env s (.glob inc (.pop i)) = (s, .err .index)) ∧
+    (∀ i j, ML.pyIndex (getGlobs s inc).length i = some j →
+      apply env s (.glob inc (.pop i)) =
+        filtersChanged env (putGlobs s inc ((getGlobs s inc).eraseIdx j))) ∧
+    (∀ v, v ∉ getGlobs s inc → apply env s (.glob inc (.remove v)) = (s, .err .value)) ∧
+    (∀ v, v ∈ getGlobs s inc →
+      apply env s (.glob inc (.remove v)) =
+        filtersChanged env (putGlobs s inc ((getGlobs s inc).erase v))) ∧
+    (∀ a b, apply env s (.glob inc (.delSlice a b)) =
+      filtersChanged env (putGlobs s inc (ML.cut (getGlobs s inc) a b))) := by
+  have hput : putGlobs s inc (getGlobs s inc) = s := by unfold putGlobs getGlobs; cases inc <;> rfl
+  refine ⟨fun i v hm => ?_, fun i v hm => ?_, fun i hi => ?_,
+    fun i j hi => ?_, fun v hm => ?_, fun v hm => ?_, fun a b => rfl⟩
+  · simp [apply, applyL, insertL, hm, hput]
+  · simp [apply, applyL, insertL, hm]
+  · simp [apply, applyL, popL, hi]
+  · simp [apply, applyL, popL, hi]
+  · simp [apply, applyL, removeL, hm]
+  · simp [apply, applyL, removeL, hm]
+
 /-- The side condition of `C09_pieces_survive_only_unchanged` is itself an invariant of every
     operation under an unchanging file system (and holds for a fresh `Torrent()`). -/
 theorem C09_path_exists_step (env : Env) (s : St) (op : Op) (h : PathEx env s) :
@@ -516,5 +611,25 @@ example :
     (apply exEnv s1 (.rx false (.setIndex (-1) r1))).1.exRegexs = [r1] ∧
     (apply exEnv s1 (.rx false (.setSlice 1 (some 1) [r2, .pre "x", r1]))).1.exRegexs
       = [r1, r2, .pre "x"] := by decide +kernel
+
+/-- `reverse()` on `[r1, r2, r3]` after hashing: exactly `[r3, r2, r1]`, hashes gone (the inherited
+    swap-by-index-assignment reverse would be `l[0] = r3` ⇒ `[r3, r2]`, then `l[2] = r1` ⇒
+    `IndexError` — the model says so too); `pop`, `remove`, `insert`, `del l[a:b]` -/
+example :
+    let r1 := Rx.suffix ".tmp"; let r2 := Rx.lit "/sub/"; let r3 := Rx.pre "x"
+    let s1 := run exEnv exS [.rx false (.setSlice 0 none [r1, r2, r3]), .generate]
+    let a := apply exEnv s1 (.rx false .reverse)
+    a.1.exRegexs = [r3, r2, r1] ∧ a.2 = .ok ∧ a.1.pieces = none ∧ s1.pieces.isSome = true ∧
+    (apply exEnv s1 (.rx false (.setIndex 0 r3))).1.exRegexs = [r3, r2] ∧
+    apply exEnv (apply exEnv s1 (.rx false (.setIndex 0 r3))).1 (.rx false (.setIndex 2 r1))
+      = ((apply exEnv s1 (.rx false (.setIndex 0 r3))).1, .err .index) ∧
+    (apply exEnv s1 (.rx false (.pop (-1)))).1.exRegexs = [r1, r2] ∧
+    apply exEnv s1 (.rx false (.pop 3)) = (s1, .err .index) ∧
+    (apply exEnv s1 (.rx false (.remove r2))).1.exRegexs = [r1, r3] ∧
+    apply exEnv s1 (.rx false (.remove (.lit "q"))) = (s1, .err .value) ∧
+    (apply exEnv s1 (.rx false (.insert (-1) (.lit "q")))).1.exRegexs = [r1, r2, .lit "q", r3] ∧
+    (apply exEnv s1 (.rx false (.insert 9 r1))).1.exRegexs = [r1, r2, r3] ∧
+    (apply exEnv s1 (.rx false (.insert 9 r1))).1.pieces = none ∧
+    (apply exEnv s1 (.rx false (.delSlice 1 none))).1.exRegexs = [r1] := by decide +kernel
 
 end Torf.C09
